@@ -12,6 +12,7 @@
   T  noexcept / copyability witnesses (static_assert)
 """
 import os
+import re
 
 from ..facts import AnalysisBroken, short
 from ..paths import path, pstr, last_field, root_var_id, fields_in
@@ -107,6 +108,28 @@ def check_fields(ctx, tu, info):
                         missing.append(fld)
                 ctx.ob('C10.F', f, 'swap exchanges every state field (%s)' % ', '.join(fields), not missing,
                        detail='not exchanged in both directions: %s' % ', '.join(missing), key_detail='swap fields')
+                # any further data member (a cached look-up result, a count, a flag - whatever is added next to the listed state) describes the
+                # contents that swap hands over: swap has to exchange it or reset it on this object; synchronisation primitives carry no contents
+                extra = []
+                for c in tu.classes_by_key.get(cls, []):
+                    if c['q'] != f.clsq:
+                        continue
+                    for fl in c.get('fields', []):
+                        ts = tu.tstr(fl['t'])
+                        if fl['name'] in fields or re.search(r'[Mm]utex|[Cc]ondition|SpinLock|atomic_flag', ts) or fl['name'].endswith('Mutex'):
+                            continue
+                        extra.append(fl['name'])
+                untouched = [x for x in extra if not any(w['path'][:2] == ('this', '.' + x) for w in ws)
+                             and not any((f.callee(n) or {}).get('name') in ('swap',) and any(last_field(path(f, a)) == x for a in f.call_args(n)) for n in f.calls())]
+                # ... directly or in a member helper called from swap
+                for n in f.calls():
+                    for h in f.callee_fns(n):
+                        if h.cls == f.cls and h.kind == 'method':
+                            untouched = [x for x in untouched if not any(w['path'][:2] == ('this', '.' + x) for w in info.writes(h))]
+                if extra:
+                    ctx.ob('C10.F', f, 'swap also exchanges or resets the further data members (%s)' % ', '.join(extra), not untouched,
+                           detail='left as they were: %s - after the swap they describe contents this object no longer holds' % ', '.join(untouched),
+                           key_detail='swap further fields ' + ','.join(untouched))
             elif f.name == 'operator=' and f.d.get('assign') == 'move':
                 missing = [fld for fld in fields if not written_from_other(f, info, fld, other)]
                 ctx.ob('C10.F', f, 'move assignment transfers every state field (%s)' % ', '.join(fields), not missing,
